@@ -19,6 +19,7 @@
 package tx_pool
 
 import (
+	"fmt"
 	"math"
 
 	"github.com/kardiachain/go-kardia/kai/events"
@@ -73,6 +74,10 @@ func NewReactor(config TxPoolConfig, txpool *TxPool) *Reactor {
 
 func (txR *Reactor) fetchTx(peer string, hashes []common.Hash) error {
 	p := txR.peers.Peer(p2p.ID(peer))
+	if p == nil {
+		// the peer was removed after the fetcher scheduled the request
+		return fmt.Errorf("peer %s is not registered", peer)
+	}
 	return p.RequestTxs(hashes)
 }
 
